@@ -62,7 +62,12 @@ class World:
             libs.modules.add().name = nm
         ns = h.from_proto(libs)
         X2 = h.ExternalModule(name="PX", port_list=[], paramtype=NP, domain="verif_other")
-        self.pool_mod = [m0, m1, X(NP(x=1)), X(NP(x=2)), h.R(r=1), h.R(r=2), ns.liba.Unit, ns.libb.Unit, X2(NP(x=1))]
+        SP = h.paramclass(type("SP", (), {"a": h.Param(dtype=h.Scalar, desc="a", default=0)}))
+        X3 = h.ExternalModule(name="PXS", port_list=[], paramtype=SP, domain="verif")
+        from hdl21.prefix import Prefix, Prefixed
+        # ... and calls of one external module with ONE value written three ways: equal calls, so equal parameters
+        self.pool_mod = [m0, m1, X(NP(x=1)), X(NP(x=2)), h.R(r=1), h.R(r=2), ns.liba.Unit, ns.libb.Unit, X2(NP(x=1)),
+                         X3(SP(a=1)), X3(SP(a=Prefixed(number=Decimal("1000"), prefix=Prefix(-3)))), X3(SP(a="1.0"))]
         g0 = h.generator(self._mk_simple("PoolG0")); g1 = h.generator(self._mk_simple("PoolG1"))
         self.pool_gen = [g0, g1]
         dt = {"int": int, "float": float, "str": str, "bool": bool, "oint": typing.Optional[int], "ofloat": typing.Optional[float],
@@ -181,6 +186,8 @@ def exact(code, val):
         return ("str", val)
     if isinstance(val, enum.Enum):
         return ("enum", val.name)
+    if tn == "ExternalModuleCall":
+        return ("extcall", id(val.module), exact(None, val.params))
     if hasattr(val, "__params__"):
         import dataclasses
         return ("pc", tuple((f.name, exact(None, getattr(val, f.name))) for f in dataclasses.fields(val)))
@@ -446,7 +453,8 @@ def strategies():
         if code == "nested":
             return st.tuples(st.integers(0, 2), st.sampled_from(["", "a", "a b"])).map(lambda t: {"t": "nested", "v": {"x": t[0], "s": t[1]}})
         if code in ("scalar", "prefixed"):
-            pr = st.one_of(st.sampled_from([["1000", -3], ["1", 0], ["0.001", 3], ["1", 3], ["1000", 0], ["1.0", 0], ["2.50", -6], ["0.0025", -3]]),
+            pr = st.one_of(st.sampled_from([["1000", -3], ["1", 0], ["0.001", 3], ["1", 3], ["1000", 0], ["1.0", 0], ["2.50", -6], ["0.0025", -3],
+                                            ["6", -21], ["14", -21], ["7000", -24], ["13000", -24], ["1.000000000000000000006", 0]]),
                            st.tuples(st.integers(-999, 999).map(str), st.sampled_from(PREFIX_EXPS)).map(list),
                            # long numbers (29..40 digits): results of exact arithmetic; their neighbours differ in the last digit only
                            st.tuples(st.integers(10**28, 10**40).map(str), st.sampled_from(PREFIX_EXPS)).map(list)).map(lambda v: {"t": "pref", "v": v})
@@ -455,7 +463,7 @@ def strategies():
             return st.one_of(pr, st.integers(-5, 5).map(lambda i: {"t": "int", "v": str(i)}), st.sampled_from(["w/5", "1e3", "x y"]).map(J("str")),
                              st.sampled_from(["lit", "1"]).map(lambda s: {"t": "lit", "v": s}))
         if code == "module":
-            return st.integers(0, 8).map(J("module"))
+            return st.one_of(st.integers(0, 8), st.integers(0, 11), st.integers(9, 11)).map(J("module"))
         if code == "gen":
             return st.integers(0, 1).map(J("gen"))
         raise ValueError(code)
@@ -490,7 +498,7 @@ def strategies():
         if t == "nested":
             return {"t": "nested", "v": {"x": v["v"]["x"], "s": v["v"]["s"] + " "}}
         if t == "module":
-            return {"t": "module", "v": {0: 1, 1: 0, 2: 8, 8: 2, 3: 2, 4: 5, 5: 4, 6: 7, 7: 6}[v["v"]]}  # the most alike other pool entry
+            return {"t": "module", "v": {0: 1, 1: 0, 2: 8, 8: 2, 3: 2, 4: 5, 5: 4, 6: 7, 7: 6, 9: 2, 10: 2, 11: 2}[v["v"]]}  # the most alike other pool entry
         return None
 
     @st.composite
@@ -513,6 +521,8 @@ def strategies():
                 v = vals1[k]
                 if v["t"] == "float" and float.fromhex(v["v"]) == 0:
                     vals2[k] = {"t": "float", "v": (-float.fromhex(v["v"])).hex()}  # 0.0 / -0.0
+                elif v["t"] == "module" and v["v"] in (9, 10, 11):
+                    vals2[k] = {"t": "module", "v": draw(st.sampled_from([x for x in (9, 10, 11) if x != v["v"]]))}
                 elif v["t"] == "pref":
                     d_ = Decimal(v["v"][0])
                     j = PREFIX_EXPS.index(v["v"][1])
@@ -539,6 +549,23 @@ def strategies():
             vals1["a"], vals1["b"] = {"t": "str", "v": "x%s b=%sy" % (q, q)}, {"t": "str", "v": "z"}
             vals2 = json.loads(json.dumps(vals1))
             vals2["a"], vals2["b"] = {"t": "str", "v": "x"}, {"t": "str", "v": "y%s b=%sz" % (q, q)}
+        # equal calls of one external module whose parameter is written differently: equal parameters, one Module
+        mods_ = [nm for nm, c in fields if c == "module"]
+        if mods_ and draw(st.integers(0, 2)) == 0:
+            k = draw(st.sampled_from(mods_))
+            a_, b_ = draw(st.permutations([9, 10, 11]))[:2]
+            vals1[k] = {"t": "module", "v": a_}
+            vals2 = json.loads(json.dumps(vals1))
+            vals2[k] = {"t": "module", "v": b_}
+        # prefixed numbers below the comparison tolerance of old: distinct values, however small, are distinct parameters
+        prs_ = [nm for nm, c in fields if c in ("scalar", "prefixed")]
+        if prs_ and draw(st.integers(0, 5)) == 0:
+            k = draw(st.sampled_from(prs_))
+            a_, b_ = draw(st.sampled_from([(["6", -21], ["14", -21]), (["7000", -24], ["13000", -24]), (["1.000000000000000000006", 0], ["1.000000000000000000014", 0]),
+                                           (["3", -24], ["4", -24]), (["0.000000000000000000001", 0], ["0.000000000000000000002", 0])]))
+            vals1[k] = {"t": "pref", "v": a_}
+            vals2 = json.loads(json.dumps(vals1))
+            vals2[k] = {"t": "pref", "v": b_}
         if draw(st.integers(0, 11)) == 0:
             strs_r = st.sampled_from(["", "x", "x y", "a=1", "None"])
             return {"pattern": "recursive", "fields": [["n", "int"], ["s", "str"]], "vals1": {}, "vals2": {},
